@@ -66,12 +66,12 @@ func Match(fingerprint, target any) bool {
 		if t1, ok := target.(bool); !ok || fp != t1 {
 			return false
 		}
-	case int, int8, int16, int32, int64, uint, uint8, uint16, uint32, uint64:
+	case int, int8, int16, int32, int64, uint, uint8, uint16, uint32, uint64, gen.Int:
 		i0, _ := asInt(fp)
 		if i1, ok := asInt(target); !ok || i0 != i1 {
 			return false
 		}
-	case float32, float64:
+	case float32, float64, gen.Float:
 		f0, _ := asFloat(fp)
 		if f1, ok := asFloat(target); !ok || f0 != f1 {
 			return false
@@ -135,12 +135,12 @@ func diff(v0, v1 any, one bool, ignores ...Path) (diffs []Path) {
 		if t1, ok := v1.(bool); !ok || t0 != t1 {
 			diffs = append(diffs, Path{nil})
 		}
-	case int, int8, int16, int32, int64, uint, uint8, uint16, uint32, uint64:
+	case int, int8, int16, int32, int64, uint, uint8, uint16, uint32, uint64, gen.Int:
 		i0, _ := asInt(v0)
 		if i1, ok := asInt(v1); !ok || i0 != i1 {
 			diffs = append(diffs, Path{nil})
 		}
-	case float32, float64:
+	case float32, float64, gen.Float:
 		f0, _ := asFloat(v0)
 		if f1, ok := asFloat(v1); !ok || f0 != f1 {
 			diffs = append(diffs, Path{nil})
